@@ -56,6 +56,10 @@ type item struct {
 	slot int
 	key  string
 	dur  time.Duration
+	// ended: the call is made through a context derived from the computation's
+	// that has already been cancelled (a helper's "defer cancel()" ran, an
+	// errgroup finished): still the same computation
+	ended bool
 }
 
 type rerunner struct {
@@ -126,6 +130,20 @@ func (w *world) signal(k int) {
 // read is the correct reader protocol: register the dependency, then read.
 func (w *world) read(ctx context.Context, slot int) obs {
 	in := w.cur[slot]
+	if in.res.Invalidated() {
+		// The last dependent of this instance went away, so the resource is being
+		// released; its Cleanup may still be pending (a release walks through the
+		// invalidation handlers of other rerunners first, and those may sit out
+		// their minimum re-run interval). Like reactive's own cache, which drops
+		// invalidated entries before reuse, the application does not hand out a
+		// resource it can see is invalidated.
+		w.c.Probe("read-finds-invalidated-instance")
+		n := w.newInst(slot)
+		if w.cur[slot] == in {
+			w.cur[slot] = n
+		}
+		in = w.cur[slot]
+	}
 	in.registered = true
 	simrt.Logf("read slot=%d inst=%d", slot, in.id)
 	reactive.AddDependency(ctx, in.res, nil)
@@ -142,10 +160,24 @@ func (w *world) exec(ctx context.Context, r *rerunner, plan []item, inv int, dep
 		}
 		switch it.kind {
 		case itRead:
-			out = append(out, w.read(ctx, it.slot))
+			rctx := ctx
+			if it.ended {
+				w.c.Probe("dependency-through-ended-derived-context")
+				var cancel context.CancelFunc
+				rctx, cancel = context.WithCancel(ctx)
+				cancel()
+			}
+			out = append(out, w.read(rctx, it.slot))
 		case itCache:
 			key := it.key
-			v, err := reactive.Cache(ctx, key, func(ctx context.Context) (interface{}, error) {
+			cctx := ctx
+			if it.ended {
+				var cancel context.CancelFunc
+				cctx, cancel = context.WithCancel(ctx)
+				cancel()
+			}
+			nAfter := len(r.curAfter)
+			v, err := reactive.Cache(cctx, key, func(ctx context.Context) (interface{}, error) {
 				w.c.Probe("cache-miss")
 				o, err := w.exec(ctx, r, r.sub[key], inv, depth+1)
 				if err == nil && r.childErrAt[inv] {
@@ -155,6 +187,15 @@ func (w *world) exec(ctx context.Context, r *rerunner, plan []item, inv int, dep
 				}
 				return o, err
 			})
+			if err != nil && it.ended && ctx.Err() == nil && errors.Is(err, context.Canceled) {
+				// the look-up through the ended context was refused: the caller
+				// carries on without that value
+				w.c.Probe("cache-lookup-through-ended-context-refused")
+				// whatever a child that started and then failed had registered went
+				// away with it
+				r.curAfter = r.curAfter[:nAfter]
+				continue
+			}
 			if err != nil {
 				return nil, err
 			}
@@ -248,14 +289,14 @@ func (w *world) genPlan(c *runner.Ctx, nSlots int, minKey int, r *rerunner) []it
 		k := c.Choose(10, "plan-item")
 		switch {
 		case k < 5 || (k < 8 && minKey >= 3):
-			plan = append(plan, item{kind: itRead, slot: c.Choose(nSlots, "slot")})
+			plan = append(plan, item{kind: itRead, slot: c.Choose(nSlots, "slot"), ended: c.Choose(8, "ended-ctx") == 1})
 		case k < 8:
 			ki := minKey + c.Choose(3-minKey, "key")
 			key := fmt.Sprintf("k%d", ki)
 			if _, ok := r.sub[key]; !ok {
 				r.sub[key] = w.genPlan(c, nSlots, ki+1, r)
 			}
-			plan = append(plan, item{kind: itCache, key: key})
+			plan = append(plan, item{kind: itCache, key: key, ended: c.Choose(8, "ended-ctx") == 1})
 		case k == 8:
 			plan = append(plan, item{kind: itAfter, dur: []time.Duration{2 * time.Second, 20 * time.Second, 90 * time.Second, 0, -time.Second, time.Millisecond}[c.Choose(6, "after-dur")]})
 		default:
@@ -270,8 +311,11 @@ func planString(p []item, sub map[string][]item, seen map[string]bool) string {
 	for _, it := range p {
 		switch it.kind {
 		case itRead:
-			parts = append(parts, fmt.Sprintf("r%d", it.slot))
+			parts = append(parts, fmt.Sprintf("r%d%s", it.slot, map[bool]string{true: "~"}[it.ended]))
 		case itCache:
+			if it.ended {
+				parts = append(parts, "~")
+			}
 			if seen[it.key] {
 				parts = append(parts, it.key)
 			} else {
